@@ -5,8 +5,8 @@ WP close2, item 4 (first half): `D_thread` (src/gourdon/D.cpp:55-171) WITHOUT `4
 (the Sieve has 2, 3, 5 built in) and FactorTableD only holds numbers coprime to 2·3·5·7·11 (`d_lvspec` needs `min_b ≥ 5`).
 For `get_k(x) = π(x^(1/4))` (every `x < 20^4`, in particular `2 ≤ x < 2401` where `get_k(x) < 4`) no level `b > k` has a leaf:
 `p_b > x^(1/4)` ⇒ `x / p_b³ < p_b` ⇒ no `m > p_b` with `m ≤ x / p_b³`.  The real control flow then never touches the sieve:
-either `min_b > max_b` (D.cpp:92-93 skips the segment loop) or, in every segment, the loop head of the FIRST level `b = min_b`
-takes `goto next_segment` (D.cpp:113-114 `if (prime >= max_m) goto next_segment` resp. D.cpp:151-152
+either `min_b > max_b` (D.cpp:78-79 `return 0`) or, in every segment, the loop head of the FIRST level `b = min_b`
+takes `goto next_segment` (D.cpp:110-111 `if (prime >= max_m) goto next_segment` resp. D.cpp:149-150
 `if (prime >= primes[l]) goto next_segment`), before `sieve.count` / `factor.is_leaf` are reached.
 
 * `segLoop_first_none`   the segment loop returns its accumulator when the first level of every segment says `goto next_segment`
